@@ -21,6 +21,7 @@ import traceback
 
 from . import findings as findings_mod
 from .util import (
+    DiscardCase,
     HarnessError,
     Streams,
     VERIF_ROOT,
@@ -130,6 +131,8 @@ def run_chunk(prop, batch_seed, indices, tier, avoid, sample_upto):
             r = fork_call(
                 _run_one, (prop, batch_seed, i, tier, avoid, i < sample_upto), timeout=RUN_TIMEOUT_S
             )
+        except DiscardCase as e:
+            r = {"i": i, "discarded": str(e)[:500]}
         except HarnessError as e:
             r = {"i": i, "harness_error": str(e)[:4000]}
         out.append(r)
@@ -143,7 +146,7 @@ def run_chunk(prop, batch_seed, indices, tier, avoid, sample_upto):
 def _fails_same(prop, cand, oracle):
     try:
         res = exec_case_forked(prop, cand)
-    except HarnessError:
+    except (HarnessError, DiscardCase):
         return None
     for v in res["violations"]:
         if v["oracle"] == oracle:
@@ -285,6 +288,7 @@ def main(argv=None):
     # 2. seeded batch
     results = {}
     harness_errors = []
+    discarded = []
     next_index = 0
     sample_upto = 3
     ctx = multiprocessing.get_context("fork")
@@ -310,6 +314,8 @@ def main(argv=None):
                     for r in fut.result():
                         if "harness_error" in r:
                             harness_errors.append(r)
+                        elif "discarded" in r:
+                            discarded.append(r)
                         else:
                             results[r["i"]] = r
                 except Exception as e:  # worker died
@@ -412,6 +418,10 @@ def main(argv=None):
             printed.add(entry["id"])
             print(f"  known finding {entry['id']}: {known_hits[entry['id']]} hit(s) in this run (canonical replay + batch)")
 
+    if discarded:
+        print(f"  ({len(discarded)} generated case(s) discarded as invalid programs, e.g. run {discarded[0]['i']}: {discarded[0]['discarded'][:200]})")
+        if len(discarded) > max(3, 0.02 * (len(results) + len(discarded))):
+            harness_errors.append({"i": discarded[0]["i"], "harness_error": f"{len(discarded)} generated cases discarded: the generator is broken"})
     for he in harness_errors[:10]:
         print(f"HARNESS-ERROR run={he['i']}: {he['harness_error'][:1500]}")
     if harness_errors and exit_code == 0:
@@ -426,7 +436,7 @@ def main(argv=None):
         from .evidence import write_evidence
 
         write_evidence(prop, mod, args.tier, batch_seed, results, order, wall, batch_wall,
-                       violations_reported, known_hits, presumed_known, harness_errors, workers)
+                       violations_reported, known_hits, presumed_known, harness_errors, workers, len(discarded))
     if args.digests:
         with open(args.digests, "w") as f:
             json.dump({str(i): results[i]["digest"] for i in order}, f)
